@@ -134,8 +134,8 @@ func VerifBlockGraphs(prog *ProgramAnalysisState, f *ssa.Function) []*EscapeGrap
 
 // VerifReprocess re-applies the block transfer function to every block of every summarised function once
 // and reports the blocks whose end graph changed: none if the analysis stopped at a fixpoint. A graph that differs
-// from the stored one only in which load node represents an object (same shape under VerifHash) does not count: the
-// choice of representative depends on the history of the node group, not on the abstract state.
+// from the stored one only in which (or how many) load nodes represent an object (same VerifLabelSig) does not count:
+// the choice of representatives depends on the history of the node group, not on the abstract state.
 func VerifReprocess(prog *ProgramAnalysisState) []string {
 	var changed []string
 	for _, f := range VerifSummarized(prog) {
@@ -148,7 +148,7 @@ func VerifReprocess(prog *ProgramAnalysisState) []string {
 				continue
 			}
 			before := s.blockEnd[b]
-			if s.ProcessBlock(b) && VerifHash(before) != VerifHash(s.blockEnd[b]) {
+			if s.ProcessBlock(b) && VerifLabelSig(before) != VerifLabelSig(s.blockEnd[b]) {
 				changed = append(changed, fmt.Sprintf("%s block %d", f.String(), b.Index))
 			}
 		}
@@ -223,6 +223,37 @@ func VerifWeaken(g *EscapeGraph, choose func(n int) int) *EscapeGraph {
 		}
 	}
 	return w
+}
+
+// VerifLabelSig returns a hash of the *set* of labelled nodes (kind, debug label, status) and of the *set* of labelled
+// edges (source label, destination label, flags) of g. Nodes that carry the same label - typically several load nodes
+// standing for the same loaded object, whose number depends on the history of the node group - are identified, so
+// two graphs that differ only in how many such representatives exist have the same signature. It is coarser than
+// VerifHash: it can miss a difference, it cannot invent one.
+func VerifLabelSig(g *EscapeGraph) uint64 {
+	if g == nil {
+		return 0
+	}
+	set := map[string]struct{}{}
+	for n, st := range g.status {
+		set[fmt.Sprintf("N|%d|%s|%d", int(n.kind), n.debugInfo, int(st))] = struct{}{}
+	}
+	for src, outs := range g.edges {
+		for dst, m := range outs {
+			set[fmt.Sprintf("E|%d|%s|%d|%s|%d", int(src.kind), src.debugInfo, int(dst.kind), dst.debugInfo, int(m))] = struct{}{}
+		}
+	}
+	keys := make([]string, 0, len(set))
+	for k := range set {
+		keys = append(keys, k)
+	}
+	sort.Strings(keys)
+	f := fnv.New64a()
+	for _, k := range keys {
+		f.Write([]byte(k))
+		f.Write([]byte{0})
+	}
+	return f.Sum64()
 }
 
 // VerifHash returns a hash of g that is invariant under renumbering of nodes: colour refinement over
